@@ -39,6 +39,22 @@ def run(check, pool, Task):
 
     from . import glue
     glue.run(check, pool, Task, ('polygon', 'point'))
+    # the Dask version: total_bounds over partition bounds (the only repository code in it; partition bounds per C13 above)
+    from . import c06
+    from .run_c06 import replay_tb
+    tasks = [Task(f'DaskGeoSeries.total_bounds partitions={p}', c06.q_total_bounds, (p,), timeout=300, meta={'part': p}) for p in ([[0, 1], [2]], [[0], [], [1]], [[], [0]], [[], []])]
+    res = pool(tasks)
+    for t in tasks:
+        r = res.get(t.name, {'status': 'error', 'detail': 'no result'})
+        if r['status'] == 'sat':
+            bad, wit = replay_tb(t.meta['part'], r['model'])
+            if bad:
+                v = check.violation('C13:dask:total_bounds', f"Dask total_bounds {wit['got']} but the rows give {wit['expected']}", wit)
+                check.record(t.name, dict(r, status='known-finding' if v == 'known' else 'violated'), 'query', t.meta)
+            else:
+                check.record(t.name, dict(r, status='inconclusive', detail='did not reproduce'), 'query', t.meta)
+        else:
+            check.record(t.name, r, 'query', t.meta)
 
 
 def replay(path):
